@@ -51,6 +51,10 @@ pub fn convert_def(ast: &ASTTy, imp: &mut Imports, state: &State, ctx: &Context)
                             let state = state.must_assign_to(Some(&var.clone()), expr.ty.clone());
                             return convert_node(expr, imp, &state, ctx);
                         }
+                        Core::If { .. } => {
+                            let msg = "if without else as value of a definition";
+                            return Err(Box::from(UnimplementedErr::new(expr, msg)));
+                        }
                         other => Some(Box::from(other)),
                     },
                     (Core::TupleLiteral { elements }, None) => Some(Box::from(Core::Tuple {
